@@ -208,6 +208,8 @@ def to_scenario(sid, steps, rng, mode="replay", fresh=False):
           "norelayext": norelay, "rollover": rng.random() < 0.04, "cc": cc}
     # session ids that differ only in padding / case / white space (all of them distinct ids)
     sc["similarsids"] = rng.random() < 0.4
+    # offers and answers with control characters, markup and runes outside the BMP (carried unchanged)
+    sc["oddtext"] = rng.random() < 0.35
     # extreme self-reported counts: an order-preserving concretisation of the step's numbers
     if rng.random() < 0.3:
         loads = sorted(set(it[3] for st in steps for it in (st[1] if st[0] == "Wave" else [st]) if it[0] == "ProxyRegister"))
